@@ -349,12 +349,12 @@ def check(case):
             memo = {}
             unequal = len(set(np.round(oerr / oerr[0], 9))) > 1
             for pt in case['points']:
-                u = list(pt['u'][:ndim])
+                u = [pt['u'][i_ % len(pt['u'])] for i_ in range(ndim)]
                 if pt['invalid']:
                     for i, name in enumerate(order):
                         if name in [param_name('mol0', w), param_name('mol1', w)]:
                             u[i] = 0.985
-                want_x = [ref_inverse(*specs[name], u[i]) for i, name in enumerate(order)]
+                want_x = [ref_inverse(*specs[name], u[i % len(u)]) for i, name in enumerate(order)]
                 out.applies('prior-callback')
                 got_x = cut(out, 'prior-callback@' + sampler, call_prior, u)
                 if len(got_x) != ndim or not close(got_x, want_x, rtol=1e-9, atol=1e-12):
